@@ -2,6 +2,7 @@ import RdfModel.Driver.Wire
 import RdfModel.Model.NQuads
 import RdfModel.Model.GoUrl
 import RdfModel.Gen.NQTables
+import RdfModel.Spec.NQuadsGrammar
 namespace RdfModel.Driver.NQ
 open RdfModel RdfModel.Wire RdfModel.NQ
 
@@ -35,6 +36,10 @@ def handle (op : String) (args : List String) : Option String :=
     let rs ← runesTok inp
     let (qs, v) := run T GoUrl.parseAbsOk e quads rs
     pure (String.intercalate ";" (qs.map showQuad) ++ "|" ++ showVerdict v)
+  | "accepts", [pkg, inp] => do
+    let (T, quads) ← tablesOf pkg
+    let rs ← runesTok inp
+    pure (toString (Spec.NQG.accepts (inRanges T.pnCharsU) (inRanges T.pnChars) quads rs))
   | "url", [s] => do
     let rs ← runesTok s
     pure (if GoUrl.parseAbsOk rs then "abs" else if GoUrl.parseOk rs then "rel" else "bad")
